@@ -412,7 +412,8 @@ func getMethodMapName(method core_domain.CodeFunction) string {
 	if name == "" && len(methodQueue) > 1 {
 		name = methodQueue[len(methodQueue)-1].Name
 	}
-	return currentPkg + "." + currentClz + "." + name + ":" + strconv.Itoa(method.Position.StartLine)
+	// line and column: overloads may start on one line
+	return currentPkg + "." + currentClz + "." + name + ":" + strconv.Itoa(method.Position.StartLine) + ":" + strconv.Itoa(method.Position.StartLinePosition)
 }
 
 func (s *JavaFullListener) EnterCreator(ctx *parser.CreatorContext) {
